@@ -699,8 +699,8 @@ def run(prog: Program, chk: Check) -> None:
     chk.not_decided = "Exactness of the superoperator arithmetic itself (plain `@`)."
     chk.assumptions = ["`A @ B` applied to a vectorised state applies B first",
                        "tensornetwork: node @ node contracts shared edges (order-free)"]
-    o1(prog, chk)
-    o2(prog, chk)
-    o3(prog, chk)
-    o3b(prog, chk)
-    o4(prog, chk)
+    chk.call(o1, prog, chk)
+    chk.call(o2, prog, chk)
+    chk.call(o3, prog, chk)
+    chk.call(o3b, prog, chk)
+    chk.call(o4, prog, chk)
